@@ -137,6 +137,9 @@ fn main() {
         "damage" => {
             if let Some(img) = arg(&args, "--replay") {
                 damage::replay(img, arg(&args, "--history").unwrap());
+            } else if args.iter().any(|a| a == "--stale") {
+                damage::stale(arg_u64(&args, "--seed", 1), arg(&args, "--bases").unwrap(), arg_u64(&args, "--count", 300), arg_u64(&args, "--max-ops", 12),
+                    arg(&args, "--outdir").unwrap(), arg(&args, "--list").unwrap());
             } else if args.iter().any(|a| a == "--lockstep") {
                 damage::lockstep(arg_u64(&args, "--seed", 1), arg(&args, "--bases").unwrap(), arg_u64(&args, "--count", 200), arg_u64(&args, "--max-ops", 8),
                     arg(&args, "--outdir").unwrap(), arg(&args, "--ops").unwrap(), arg(&args, "--impl").unwrap());
